@@ -54,7 +54,7 @@ def key_cases(tier):
     n = 0
     for (nr, nc), rings, cd, ag, dxu in itertools.product(shapes, KEY_RINGS, (8, 10), (1, 2, 0), (2, 3)):
         n += 1
-        if n % (6 if tier == 'quick' else 2) != 1:
+        if n % (6 if tier == 'quick' else 2) != 1 and not (ag == 0 and dxu == 2 and cd == 8 and (nr, nc) == shapes[0]):
             continue
         rr = '<<%s>>' % ', '.join('[n |-> %d, w |-> %d, g |-> %d, rot |-> %d]' % r for r in rings)
         out.append('[nr |-> %d, nc |-> %d, dxu |-> %d, cd |-> %d, rings |-> %s, ag |-> %d]' % (nr, nc, dxu, cd, rr, ag))
@@ -92,7 +92,7 @@ def prim_cases(tier):
         cen = c == (0, 0)
         sym = (cen and sides % 2 == 0, cen and (2 * rot) % step == 0, cen and (6 - 2 * rot) % step == 0)
         prims.append((dict(k='polygon', api='regular_polygon', sides=sides, r=r, rot=rot, c=c), dict(k='polygon', api='regular_polygon', sides=sides, r=r + 1, rot=rot, c=c), sym))
-    for vanes, w, rot, c in itertools.product((1, 2, 3, 4, 6), (3, 5), (0, 1, 3), ((0, 0), (2, 2))):
+    for vanes, w, rot, c in itertools.product((1, 2, 3, 4, 6), (3, 5), (0, 1, 3), ((0, 0), (2, 2), (4, -2))):
         step = 12 // vanes
         cen = c == (0, 0)
         sym = (cen and vanes % 2 == 0, cen and (6 - 2 * rot) % step == 0, cen and (2 * rot) % step == 0)
@@ -102,7 +102,7 @@ def prim_cases(tier):
     n = 0
     for (nr, nc), (p, g, sym), dxu in itertools.product(shapes, prims, (1, 2)):
         n += 1
-        if tier == 'quick' and n % 3 != 1 and p['k'] not in ('circle', 'annulus'):
+        if tier == 'quick' and n % 3 != 1 and p['k'] not in ('circle', 'annulus') and not (p['k'] == 'spider' and p['c'] == (4, -2) and p['w'] == 3 and dxu == 1 and (nr, nc) == shapes[0]):
             continue
         out.append('[nr |-> %d, nc |-> %d, dxu |-> %d, p |-> %s, g |-> %s, sym |-> [point |-> %s, x |-> %s, y |-> %s]]'
                    % (nr, nc, dxu, prim_rec(**p), prim_rec(**g), *('TRUE' if s else 'FALSE' for s in sym)))
